@@ -344,48 +344,92 @@ def r5(ctx):
     P = ctx.project
     META = "formulaic.materializers.base.FormulaMaterializerMeta"
     ctx.look(6)
+    from ..expect import contains
     reg = P.method(META, "__register_implementation__")
-    t = norm(reg.node)
-    ok = "if 'REGISTER_NAME' in cls.__dict__ and cls.REGISTER_NAME: cls.REGISTERED_NAMES[cls.REGISTER_NAME] = cls" in t.replace("\n", " ") \
-        and "cls.REGISTERED_INPUTS[input_type] = sorted(cls.REGISTERED_INPUTS[input_type] + [cls], key=lambda x: x.REGISTER_PRECEDENCE, reverse=True)" in t
+    ok, why = contains(P, reg, """
+        def __register_implementation__(cls):
+            if "REGISTER_NAME" in cls.__dict__ and cls.REGISTER_NAME:
+                cls.REGISTERED_NAMES[cls.REGISTER_NAME] = cls
+                if "REGISTER_INPUTS" in cls.__dict__:
+                    for input_type in cls.REGISTER_INPUTS:
+                        cls.REGISTERED_INPUTS[input_type] = sorted(cls.REGISTERED_INPUTS[input_type] + [cls], key=lambda x: x.REGISTER_PRECEDENCE, reverse=True)
+    """)
     ctx.check(ok, "C05.R5", "a materializer is registered under its own name and, per input type, in descending precedence", reg.where, ctx.construct(reg, text="registration"),
-              "__register_implementation__ changed shape")
+              f"__register_implementation__: {why}")
     fm = P.method(META, "for_materializer")
-    t = norm(fm.node)
-    ok = "if materializer not in cls.REGISTERED_NAMES: raise FormulaMaterializerNotFoundError(materializer)" in t.replace("\n", " ") and "return cls.REGISTERED_NAMES[materializer]" in t \
-        and "return type(materializer)" in t and "raise FormulaMaterializerInvalidError" in t
+    ok, why = contains(P, fm, """
+        def for_materializer(cls, materializer):
+            if isinstance(materializer, str):
+                if materializer not in cls.REGISTERED_NAMES:
+                    raise FormulaMaterializerNotFoundError(materializer)
+                return cls.REGISTERED_NAMES[materializer]
+            if isinstance(materializer, FormulaMaterializer):
+                return type(materializer)
+            if not inspect.isclass(materializer) or not issubclass(materializer, FormulaMaterializer):
+                raise FormulaMaterializerInvalidError("")
+            return materializer
+    """)
     ctx.check(ok, "C05.R5", "for_materializer: name → registry entry (or NotFound), instance → its class, anything else must be a subclass", fm.where,
-              ctx.construct(fm, text="for_materializer"), "for_materializer changed shape")
+              ctx.construct(fm, text="for_materializer"), f"for_materializer: {why}")
     fd = P.method(META, "for_data")
-    t = norm(fd.node).replace("\n", " ")
-    ok = "input_type = f'{datacls.__module__}.{datacls.__qualname__}'" in t and "materializers_supporting_input.extend(cls.REGISTERED_INPUTS[input_type])" in t \
-        and "if output is None and materializers_supporting_input: return materializers_supporting_input[0]" in t \
-        and "for materializer in sorted(set(cls.REGISTERED_NAMES.values()), key=lambda x: x.REGISTER_PRECEDENCE, reverse=True):" in t \
-        and "if materializer.SUPPORTS_INPUT(data): materializers_supporting_input.append(materializer)" in t \
-        and "if output is None: return materializers_supporting_input[0]" in t \
-        and "for materializer in materializers_supporting_input: if output in materializer.REGISTER_OUTPUTS: return materializer" in t \
-        and "if not materializers_supporting_input: raise FormulaMaterializerNotFoundError" in t
+    ok, why = contains(P, fd, """
+        def for_data(cls, data, output=None):
+            datacls = data.__class__
+            input_type = f"{datacls.__module__}.{datacls.__qualname__}"
+            materializers_supporting_input = []
+            if input_type in cls.REGISTERED_INPUTS:
+                materializers_supporting_input.extend(cls.REGISTERED_INPUTS[input_type])
+            if output is None and materializers_supporting_input:
+                return materializers_supporting_input[0]
+            for materializer in sorted(set(cls.REGISTERED_NAMES.values()), key=lambda x: x.REGISTER_PRECEDENCE, reverse=True):
+                if materializer.SUPPORTS_INPUT(data):
+                    materializers_supporting_input.append(materializer)
+            if not materializers_supporting_input:
+                raise FormulaMaterializerNotFoundError("")
+            if output is None:
+                return materializers_supporting_input[0]
+            for materializer in materializers_supporting_input:
+                if output in materializer.REGISTER_OUTPUTS:
+                    return materializer
+            raise FormulaMaterializerNotFoundError("")
+    """)
     ctx.check(ok, "C05.R5", "for_data: explicit input registrations first, then SUPPORTS_INPUT fallbacks by precedence; first one offering the requested output", fd.where,
-              ctx.construct(fd, text="for_data"), "for_data dispatch changed shape")
+              ctx.construct(fd, text="for_data"), f"for_data dispatch: {why}")
     gm = P.method("formulaic.model_spec.ModelSpec", "get_materializer")
-    t = norm(gm.node).replace("\n", " ")
-    ok = "if self.materializer is None: materializer = FormulaMaterializer.for_data(data) else: materializer = FormulaMaterializer.for_materializer(self.materializer)" in t \
-        and "return materializer(data, context=context, **self.materializer_params or {})" in t
+    ok, why = contains(P, gm, """
+        def get_materializer(self, data, context=None):
+            if self.materializer is None:
+                materializer = FormulaMaterializer.for_data(data)
+            else:
+                materializer = FormulaMaterializer.for_materializer(self.materializer)
+            return materializer(data, context=context, **(self.materializer_params or {}))
+    """)
     ctx.check(ok, "C05.R5", "a spec uses its recorded materializer (and parameters), else the one registered for the data", gm.where, ctx.construct(gm, text="get_materializer"),
-              "ModelSpec.get_materializer changed shape")
+              f"ModelSpec.get_materializer: {why}")
     pi = P.method("formulaic.model_spec.ModelSpec", "__post_init__")
-    t = norm(pi.node)
-    ok = "self.__dict__['materializer'] = FormulaMaterializer.for_materializer(self.materializer).REGISTER_NAME" in t
+    ok, why = contains(P, pi, """
+        def __post_init__(self):
+            if self.materializer is not None and not isinstance(self.materializer, str):
+                self.__dict__["materializer"] = FormulaMaterializer.for_materializer(self.materializer).REGISTER_NAME
+            ...
+    """)
     ctx.check(ok, "C05.R5", "a materializer given as class/instance is recorded by its registered name", pi.where, ctx.construct(pi, text="materializer name"),
-              "ModelSpec.__post_init__ must normalise `materializer` to its REGISTER_NAME")
+              f"ModelSpec.__post_init__ must normalise `materializer` to its REGISTER_NAME: {why}")
     fs = P.method("formulaic.model_spec.ModelSpec", "from_spec")
-    pm = fs.locals_named("prepare_model_spec")
-    t = norm(pm.node).replace("\n", " ")
-    ok = "if isinstance(obj, ModelMatrix): obj = obj.model_spec" in t and "if isinstance(obj, ModelSpec): return obj.update(**attrs)" in t \
-        and "formula = Formula.from_spec(obj, context=context)" in t and "return ModelSpec(formula=formula, **attrs)" in t \
-        and "formula._map(prepare_model_spec, as_type=ModelSpecs)" in t
-    ctx.check(ok, "C05.R5", "every entry point normalises its spec argument the same way (matrix → its spec; spec → updated copy; anything else → Formula → spec(s))", pm.where,
-              ctx.construct(pm, text="from_spec"), "ModelSpec.from_spec normalisation changed shape")
+    ok, why = contains(P, fs, """
+        def from_spec(cls, spec, *, context=None, **attrs):
+            def prepare_model_spec(obj):
+                if isinstance(obj, ModelMatrix):
+                    obj = obj.model_spec
+                if isinstance(obj, ModelSpec):
+                    return obj.update(**attrs)
+                formula = Formula.from_spec(obj, context=context)
+                if isinstance(formula, StructuredFormula):
+                    return formula._map(prepare_model_spec, as_type=ModelSpecs)
+                return ModelSpec(formula=formula, **attrs)
+    """)
+    ctx.check(ok, "C05.R5", "every entry point normalises its spec argument the same way (matrix → its spec; spec → updated copy; anything else → Formula → spec(s))", fs.where,
+              ctx.construct(fs, text="from_spec"), f"ModelSpec.from_spec normalisation: {why}")
 
 
 
